@@ -4,7 +4,8 @@ import UF.Model.Lookup
   Reference for C01: the network rules that individually match the request (linear scan),
   and the hypotheses under which the engine is compared with it.
 -/
-namespace UF
+namespace UF.B
+open UF UF.Bytes
 
 def specMatchAll (ext : Ext) (rules : List NetRule) (q : Request) : List NetRule :=
   rules.filter (fun r => r.matches ext q)
@@ -23,4 +24,4 @@ def DomainsWF (r : NetRule) : Prop :=
 def TextDeterminesRule (L : List (NetRule × Idx)) : Prop :=
   ∀ p ∈ L, ∀ p' ∈ L, p.1.text = p'.1.text → p'.1 = { p.1 with listID := p'.1.listID }
 
-end UF
+end UF.B
